@@ -130,7 +130,7 @@ impl OptVal {
 }
 
 /// (name in erbium.conf(5), option code, kind) for options with an unambiguous RFC 2132 encoding.
-pub const APPLY_OPTS: [(&str, u8, u8); 25] = [
+pub const APPLY_OPTS: [(&str, u8, u8); 26] = [
     ("netmask", 1, 0),
     ("time-offset", 2, 7),
     ("routers", 3, 1),
@@ -163,6 +163,8 @@ pub const APPLY_OPTS: [(&str, u8, u8); 25] = [
     // octets are not (the server writes all four octets of every prefix, and a unit test of the
     // project pins that).
     ("routes", 121, 9),
+    // IPv6-only preferred (RFC 8925): a wait in seconds, a feature of its own
+    ("ipv6-preferred", 108, 6),
 ];
 
 pub const MATCH_OPTS: [(&str, u8); 3] = [("host-name", 12), ("class-id", 60), ("user-class", 77)];
@@ -315,7 +317,7 @@ fn optval_strategy(kind: u8) -> BoxedStrategy<OptVal> {
 }
 
 fn apply_opt_strategy() -> impl Strategy<Value = (u8, Option<OptVal>)> {
-    prop_oneof![6 => 0usize..7, 4 => 0usize..APPLY_OPTS.len(), 1 => 20usize..22, 1 => 22usize..24, 1 => Just(24usize)].prop_flat_map(|i| {
+    prop_oneof![6 => 0usize..7, 4 => 0usize..APPLY_OPTS.len(), 1 => 20usize..22, 1 => 22usize..24, 1 => Just(24usize), 1 => Just(25usize)].prop_flat_map(|i| {
         let kind = APPLY_OPTS[i].2;
         (Just(i as u8), proptest::option::weighted(0.8, optval_strategy(kind)))
     })
@@ -468,7 +470,9 @@ pub fn policy_case_strategy(prof: TreeProfile) -> impl Strategy<Value = PolicyCa
                     1 => Just((1..=254u8).collect::<Vec<u8>>()),
                 ]),
                 proptest::option::weighted(0.6, prop_oneof![Just(1500u16), Just(9000), any::<u16>()]),
-                proptest::option::weighted(0.6, any::<u32>().prop_map(Ipv4Addr::from)),
+                // the interface's router: anywhere, or (half of the time) a host of the universe the
+                // pools are cut from - a router inside the served prefix is the ordinary case
+                proptest::option::weighted(0.6, prop_oneof![1 => any::<u32>().prop_map(Ipv4Addr::from), 1 => uaddr()]),
                 any::<u8>(),
             ),
         )
@@ -1009,8 +1013,19 @@ impl Prop for C11Options {
             let _ = dhcp::handle_pkt(&mut pool, &early, Default::default(), &conf);
             out.class("after-an-earlier-request-seen-with-other-interface-facts");
         }
-        let req = build_request(c, if c.style % 2 == 0 { wire::DISCOVER } else { wire::REQUEST }, None, None);
-        let reply = match dhcp::handle_pkt(&mut pool, &req, Default::default(), &conf) {
+        let mut req = build_request(c, if c.style % 2 == 0 { wire::DISCOVER } else { wire::REQUEST }, None, None);
+        // a client in SELECTING state names the server it chose; on a multi-homed server that
+        // may be another of its addresses than the one the message arrives on (RFC 2131 4.1).
+        // What "$self4" stands for is still the receiving address.
+        let mut ids: std::collections::HashSet<Ipv4Addr> = Default::default();
+        if c.style % 2 == 1 && (c.style >> 3) & 1 == 1 {
+            let other = Ipv4Addr::new(10, 200, 0, 1);
+            req.pkt.options.other.insert(dhcppkt::OPTION_SERVERID, other.octets().to_vec());
+            ids.insert(other);
+            ids.insert(c.serverip);
+            out.class("request-names-another-address-of-this-server");
+        }
+        let reply = match dhcp::handle_pkt(&mut pool, &req, ids, &conf) {
             Ok(r) => r,
             Err(_) => {
                 out.class("no-reply");
@@ -1276,6 +1291,19 @@ impl Prop for ReplyInvariants {
                     return out;
                 }
             };
+            // a request that no configured pool matches yields no reply
+            if self.which == "C13" && documented_set(c).is_none() {
+                out.nontrivial = true;
+                out.fail(
+                    "C13:answered-without-a-matching-pool",
+                    format!(
+                        "the {} was answered with {} although no policy that applies to this client (and no top-level addresses prefix) provides addresses",
+                        if step == 0 { "DISCOVER" } else { "REQUEST" },
+                        reply.yiaddr
+                    ),
+                );
+                return out;
+            }
             if got_len(&reply) > 548 {
                 out.class("reply-longer-than-548-octets");
                 if self.which == "C13" {
